@@ -6,7 +6,7 @@ import subprocess
 from . import ais, gen, core
 from .core import hexs, parse_answer
 from .refsent import ref_sentence
-from .props_sent import L, rand_valid_sentence, rand_bytes, op_line, near_misses
+from .props_sent import L, rand_valid_sentence, rand_bytes, op_line, near_misses, numeric_extremes
 
 
 def split_payload(rng, payload, n):
@@ -22,8 +22,11 @@ def frag_lines(rng, payload, fill, n, mid, wild=False):
     pieces = split_payload(rng, payload, n)
     ch = rng.choice([b"A", b"B", b""])
     lines = []
+    # some transmitters put a fill count on every fragment: it is legal and only the last one's matters
+    odd_fill = rng.random() < 0.25
     for i, p in enumerate(pieces):
-        lines.append(ais.sentence(p, fill=fill if i == n - 1 else 0, nf=n, fn=i + 1, mid=mid, channel=ch))
+        fl = fill if i == n - 1 else (rng.randrange(6) if odd_fill else 0)
+        lines.append(ais.sentence(p, fill=fl, nf=n, fn=i + 1, mid=mid, channel=ch))
     return pieces, lines
 
 
@@ -41,7 +44,11 @@ def noise_line(rng):
     if r < 0.65:
         return rand_bytes(rng, rng.choice([0, 3, 20]))
     if r < 0.8:
-        return rng.choice(near_misses(rng))
+        l = rng.choice(near_misses(rng))
+        ref = ref_sentence(l)
+        if ref[0] == "ok" and ref[1]["nf"] != 1:
+            return l.replace(b"!", b"#", 1)     # would be a fragment of some group: not noise
+        return l
     # unfragmented sentence whose payload does not decode
     return ais.sentence(rng.choice([b"0", b"F0000", b"Z", b"1", b"5"]), fill=0)
 
@@ -58,13 +65,18 @@ def prior_history(rng, kind):
         n = rng.choice([2, 3])
         _, ls = frag_lines(rng, p, f, n, rng.choice([None, 1, 2, 3]))
         return ls
+    if kind == "completed-undecodable":
+        # a group that is delivered but whose payload does not decode (unsupported type / bad armoring)
+        bad = rng.choice([b"F", b"I", b"0", b"5"]) + gen.random_alphabet(rng, rng.choice([3, 9, 30])) + rng.choice([b"", b"x", b"~"])
+        n = rng.choice([2, 3])
+        _, ls = frag_lines(rng, bad + gen.random_alphabet(rng, 4), 0, n, rng.choice([None, 1, 2, 3]))
+        return ls
     return []
 
 
 class C05:
     id = "C05"
     name = "in-order reassembly"
-    cfgs_quick = ["std"]
     rule = ("L histories: payloads of valid messages of every type (and random alphabet strings) split at random "
             "character boundaries into 2-9 fragments, sequence id absent / 0-9 / 10-255, prefixes {fresh parser, "
             "abandoned group, just-delivered group}, with 0-3 no-trace lines (unfragmented sentences, rejected lines) "
@@ -83,10 +95,15 @@ class C05:
                 payload, fill = gen.random_alphabet(rng, rng.randrange(9, 80)), rng.randrange(6)
             if len(payload) < 9:
                 payload = payload + gen.random_alphabet(rng, 9)
+            if rng.random() < 0.08:
+                # a group larger than the no-alloc build's 384-byte buffer
+                payload, fill = payload + gen.random_alphabet(rng, rng.choice([300, 380, 500])), 0
             nfrag = rng.randrange(2, 10)
             mid = rng.choice([None, rng.randrange(10), rng.randrange(10, 256)])
             dec = rng.randrange(2)
-            kind = rng.choice(["fresh", "abandoned", "completed"])
+            kind = rng.choice(["fresh", "abandoned", "completed", "completed-undecodable"])
+            if kind == "completed-undecodable":
+                dec = 1
             pieces, lines = frag_lines(rng, payload, fill, nfrag, mid)
             ops = ["N 0", "N 1"]
             for l in prior_history(rng, kind):
@@ -115,7 +132,15 @@ class C05:
             pa = parse_answer(a)
             conv = op.split(" ")[4]
             if cfg == "noalloc" and total > 384:
-                return  # capacity: covered by C18
+                # over the no-alloc capacity (C18's permitted difference): the group must be refused,
+                # never delivered short
+                for _, a2 in frags[i:]:
+                    if parse_answer(a2)["cls"] == "C":
+                        rep.violation("C05: the no-alloc build delivered a group that exceeds its buffer (pieces are missing)",
+                                      {"cfg": cfg, "ops": [strip(o) for o in ops], "impl": [x for x in impl]})
+                        return
+                rep.count("noalloc-over-capacity")
+                return
             if i < n - 1:
                 if pa["cls"] != "I":
                     bad = f"fragment {i+1}/{n} answered {a[:60]!r}, expected Incomplete"
@@ -161,8 +186,12 @@ def strip(op):
 class SpecGroup:
     """The abstract group automaton of C06 (an Option of an open group)."""
 
-    def __init__(self):
+    def __init__(self, cap=None):
         self.g = None
+        self.cap = cap          # no-alloc build: 384 bytes of reassembled payload
+
+    def fits(self, n):
+        return self.cap is None or n <= self.cap
 
     def feed(self, f):
         """f: reference fields of a well-formed, checksum-valid sentence.
@@ -172,13 +201,13 @@ class SpecGroup:
             if fn == 1:
                 self.g = (mid, 1, [data])
                 return ("I",)
-            if self.g and self.g[0] == mid and self.g[1] == fn - 1:
+            if self.g and self.g[0] == mid and self.g[1] == fn - 1 and self.fits(sum(map(len, self.g[2])) + len(data)):
                 self.g = (mid, fn, self.g[2] + [data])
                 return ("I",)
             return ("R",)
         if nf == 1:
             return ("C", data)
-        if self.g and self.g[0] == mid and self.g[1] == fn - 1:
+        if self.g and self.g[0] == mid and self.g[1] == fn - 1 and self.fits(sum(map(len, self.g[2])) + len(data)):
             d = b"".join(self.g[2] + [data])
             self.g = None
             return ("C", d)
@@ -188,7 +217,6 @@ class SpecGroup:
 class C06:
     id = "C06"
     name = "only complete in-order groups"
-    cfgs_quick = ["std"]
     rule = ("L histories of validly numbered sentences (1 <= k <= n <= 4, ids {none,1,2}) - exhaustive over all "
             "sequences of length <= 3 (quick) / <= 4 (thorough) over a 27-sentence alphabet plus one rejected and one "
             "unfragmented line, and random histories up to length 60 with loss, duplication, reordering, interleaved "
@@ -205,8 +233,8 @@ class C06:
                     out.append((n, k, mid))
         return out
 
-    def mk(self, rng, n, k, mid, tag):
-        payload = bytes([48 + n, 48 + k, 48 + (mid or 0)]) + tag
+    def mk(self, rng, n, k, mid, tag, big=0):
+        payload = bytes([48 + n, 48 + k, 48 + (mid or 0)]) + tag + (gen.random_alphabet(rng, big) if big else b"")
         return ais.sentence(payload, nf=n, fn=k, mid=mid, fill=0)
 
     def cases(self, tier, rng):
@@ -227,19 +255,21 @@ class C06:
             ln = rng.randrange(5, 60)
             cur = None
             dmode = rng.randrange(3)     # 0: decode off, 1: on, 2: mixed
+            bigmode = rng.random() < 0.3  # payloads of 80-200 bytes: groups that overflow the 384-byte buffer
             for j in range(ln):
                 r = rng.random()
                 dec = dmode if dmode < 2 else rng.randrange(2)
+                big = rng.choice([80, 120, 200]) if bigmode else 0
                 if cur and r < 0.55:
                     n, k, mid = cur
                     k2 = k + 1 if rng.random() < 0.75 else rng.randrange(1, n + 1)
                     mid2 = mid if rng.random() < 0.85 else rng.choice([None, 1, 2])
                     k2 = min(k2, n)
-                    ops.append(L(self.mk(rng, n, k2, mid2, bytes([65 + j % 26])), 0, dec))
+                    ops.append(L(self.mk(rng, n, k2, mid2, bytes([65 + j % 26]), big), 0, dec))
                     cur = (n, k2, mid2) if k2 < n else (cur if rng.random() < 0.3 else None)
                 elif r < 0.8:
                     n, k, mid = rng.choice(alpha)
-                    ops.append(L(self.mk(rng, n, k, mid, bytes([65 + j % 26])), 0, dec))
+                    ops.append(L(self.mk(rng, n, k, mid, bytes([65 + j % 26]), big), 0, dec))
                     cur = (n, k, mid)
                 else:
                     ops.append(L(rng.choice(extra), 0, dec))
@@ -247,7 +277,7 @@ class C06:
 
     def judge(self, rep, cfg, label, ops, impl, model):
         rep.count(label)
-        spec = SpecGroup()
+        spec = SpecGroup(384 if cfg == "noalloc" else None)
         interesting = False
         for op, a, m in zip(ops, impl, model):
             if not op.startswith("L "):
@@ -288,7 +318,6 @@ class C06:
 class C17:
     id = "C17"
     name = "no trace"
-    cfgs_quick = ["std"]
     rule = ("L histories (random mixes of fragments in and out of order, unfragmented sentences that do and do not "
             "decode, rejected lines of every kind, decode off for fragments): for every position holding a line that "
             "was rejected or is an unfragmented sentence, the history is replayed without that line on a fresh parser "
@@ -398,10 +427,22 @@ class C17:
 def mixed_stream(rng, tier, n):
     """A stream touching every entry point; used by C18 and C01."""
     ops = []
+    keep = False
     for _ in range(n):
         r = rng.random()
-        if r < 0.25:
+        # one case in three continues with the parser as the previous case left it (abandoned or
+        # delivered groups, rejected lines): differences between builds may need such a history
+        keep = rng.random() < 0.35
+        if not keep:
             ops.append("N 0")
+        if r < 0.05:
+            # a group that is started and abandoned
+            p = gen.random_alphabet(rng, rng.choice([12, 40, 90]))
+            k = rng.choice([2, 3, 4])
+            _, ls = frag_lines(rng, p, 0, k, rng.choice([None, 3, 4]))
+            for l in ls[:rng.randrange(1, k)]:
+                ops.append(L(l, 0, rng.randrange(2)))
+        elif r < 0.25:
             p, f = gen.valid_message_payload(rng)
             if rng.random() < 0.3:
                 p = p + gen.random_alphabet(rng, rng.choice([10, 100, 300, 400]))
@@ -414,13 +455,11 @@ def mixed_stream(rng, tier, n):
                     ops.append(L(l, 0, 1, rng.choice("or")))
         elif r < 0.35:
             # long groups that exceed 384 bytes in total
-            ops.append("N 0")
             k = rng.choice([2, 3, 4, 6])
             sizes = [rng.choice([10, 100, 200, 380, 384]) for _ in range(k)]
             for i, sz in enumerate(sizes):
                 ops.append(L(ais.sentence(gen.random_alphabet(rng, sz), nf=k, fn=i + 1, mid=1, fill=0), 0, rng.randrange(2)))
         elif r < 0.4:
-            ops.append("N 0")
             ops.append(L(ais.sentence(gen.random_alphabet(rng, rng.choice([383, 384, 385, 500, 513, 700])), fill=0), 0, rng.randrange(2)))
         elif r < 0.6:
             t = rng.choice(gen.ALL_TYPES)
@@ -443,7 +482,6 @@ def mixed_stream(rng, tier, n):
             s = gen.random_alphabet(rng, n2) if rng.random() < 0.8 else rand_bytes(rng, min(n2, 40))
             ops.append(f"U {rng.randrange(6)} {hexs(s)}")
         else:
-            ops.append("N 0")
             for _ in range(rng.randrange(1, 6)):
                 ops.append(L(noise_line(rng), 0, rng.randrange(2)))
     return ops
@@ -478,11 +516,13 @@ class C18:
         last_n = 0
         acc = 0          # bytes accumulated in the open group, per the std answers
         prev_st = {c: "none,0," for c in cfgs}
+        diverged = False   # the no-alloc parser holds a different state because it refused a fragment for capacity
         for i, op in enumerate(ops):
             if op.startswith("N "):
                 last_n = i
                 acc = 0
                 prev_st = {c: "none,0," for c in cfgs}
+                diverged = False
                 continue
             rep.evaluations += 1
             s, al, na = ans["std"][i], ans["alloc"][i], ans["noalloc"][i]
@@ -491,7 +531,11 @@ class C18:
             if s != al:
                 rep.violation(f"C18: std and alloc builds differ: {s[:80]!r} vs {al[:80]!r}", ctx)
             exceeds = self.exceeds(op, s, acc)
-            if na != s:
+            if diverged and op.startswith("L "):
+                # after a permitted capacity rejection the two parsers hold different groups; until they
+                # meet again the no-alloc answers are judged against the no-alloc model only (below)
+                rep.count("after-capacity-rejection")
+            elif na != s:
                 if not exceeds:
                     rep.violation(f"C18: no-alloc build differs from std although no capacity is exceeded: {na[:80]!r} vs {s[:80]!r}", ctx)
                 else:
@@ -524,6 +568,7 @@ class C18:
                     st = parse_answer(ans[c][i]).get("st")
                     if st is not None:
                         prev_st[c] = st
+                diverged = prev_st["noalloc"] != prev_st["std"]
             if rep.evaluations % 397 == 0:
                 rep.sample({"op": op[:120], "std": s[:80], "noalloc": na[:80]})
 
@@ -606,6 +651,12 @@ class C01:
                     ops.append(L(ais.sentence(b"15", nf=n, fn=k, mid=mid), 0, rng.randrange(2)))
         # the longest possible group: 254 accepted fragments (counter at 254), and the completed
         # 255-fragment group (counter must be back at 0), each followed by boundary numberings
+        for first in (b"F", b"1"):
+            ops.append("N 0")
+            for j in range(1, 256):
+                ops.append(L(ais.sentence(first if j == 1 else b"1", nf=255, fn=j, mid=7), 0, 1))
+            for (n, k, mid) in ((2, 2, 7), (255, 255, 7), (3, 3, None), (1, 1, None), (255, 1, 7)):
+                ops.append(L(ais.sentence(b"15", nf=n, fn=k, mid=mid), 0, 1))
         for upto in (254, 255):
             for (n, k, mid) in ((255, 255, 0), (255, 254, 0), (255, 253, 0), (2, 2, None), (2, 2, 0), (1, 0, None),
                                 (0, 0, 0), (255, 0, 0), (1, 255, None), (3, 1, 0), (255, 1, None), (1, 1, None)):
@@ -668,7 +719,6 @@ class C01:
 class C20:
     id = "C20"
     name = "command-line tool"
-    cfgs_quick = ["std"]
     rule = ("the real aisparser binary (built from /repo's working tree) fed random byte streams through a pipe: "
             "concatenations of valid sentences, fragment groups, noise, empty lines, CR LF endings, bytes >= 0x80, "
             "NUL bytes, very long lines, with and without a final newline; expected per-line outcome from the library "
@@ -697,7 +747,7 @@ class C20:
                 lines.append(b"\xff\xfe garbage \x80")
             elif r < 0.86:
                 # very long lines (longer than any internal buffer), some running straight into sentence text
-                n = rng.choice([1023, 1024, 1025, 1500, 4096, 8191, 8192, 8193, 20000])
+                n = rng.choice([1023, 1024, 1025, 1500, 4096, 8191, 8192, 8193, 20000, 65535, 65536, 65537, 70000, 140000])
                 tail = rand_valid_sentence(rng, wild=False) if rng.random() < 0.5 else b""
                 lines.append(rand_bytes(rng, n, exclude=b"\n") [:n - len(tail)] + tail)
             elif r < 0.88:
@@ -705,6 +755,8 @@ class C20:
                 lines.append(ais.sentence(p_, fill=f_, nf=rng.choice([0, 1, 1, 2]), fn=rng.choice([0, 2, 3, 255])))
             elif r < 0.9:
                 lines.append(rand_valid_sentence(rng) .replace(b"\n", b" "))
+            elif r < 0.95:
+                lines.append(rng.choice(near_misses(rng) + 3 * numeric_extremes(rng)).replace(b"\n", b" "))
             else:
                 lines.append(ais.sentence(gen.random_alphabet(rng, 5), cks=0x100 - 1))
         data = b"\n".join(lines)
